@@ -51,13 +51,13 @@ def channel(draw, has_bnodes):
     parts = draw(st.integers(1, 4)) if how in ("files", "urls") or comp == "zip" else 1
     assign = draw(st.lists(st.integers(0, 3), min_size=1, max_size=12))
     return {"fmt": fmt, "how": how, "comp": comp, "parts": parts, "assign": assign, "zips": draw(st.integers(1, 2)),
-            "pfx": draw(st.integers(0, 7))}
+            "pfx": draw(st.integers(0, 15))}
 
 
 @st.composite
 def cases(draw):
     bn = draw(st.integers(0, 3)) == 0
-    g = draw(gg.general(bnodes=bn, max_stmts=24, quirks=draw(gg.quirk_set(one_in=3))))
+    g = draw(gg.general(bnodes=bn, max_stmts=24, quirks=draw(gg.quirk_set(one_in=3)) + (["shared_locals"] if draw(st.booleans()) else [])))
     # sprinkle literals whose content looks like markup
     extra = draw(st.lists(st.tuples(st.integers(0, 5), st.integers(0, 2), st.sampled_from(SPECIAL_LEX), st.sampled_from(["", "", "en"])), max_size=3))
     subs = [t[0] for t in g["triples"] if t[1] == RDF_TYPE] or [t[0] for t in g["triples"]]
@@ -94,6 +94,10 @@ TTL_PREFIXES = [{"ex": "http://ex.org/", "xsd": "http://www.w3.org/2001/XMLSchem
 NS_DICTS = [None, None, {"http://other.org/v#": "ex"}, {"http://ex.org/ns/": "", "http://ex.org/": "weso-s"}]
 
 
+REBIND = [{"ex": "http://ex.org/", "n": "http://ex.org/ns/", "": "http://other.org/v#"},
+          {"ex": "http://ex.org/ns/", "n": "http://ex.org/", "": "https://data.example/"}]
+
+
 def content(fmt, triples, pfx=0):
     if fmt == "nt":
         return to_nt(triples)
@@ -101,7 +105,12 @@ def content(fmt, triples, pfx=0):
         return to_tsv(triples)
     if fmt in ("turtle", "turtle_iter", "n3"):
         # every second prefix choice also writes xsd:integer literals in Turtle's number shorthand (-5, +3, 42)
-        return to_simple_turtle(triples, TTL_PREFIXES[pfx % len(TTL_PREFIXES)], bare_integers=(pfx // len(TTL_PREFIXES)) % 2 == 1)
+        bare = (pfx // len(TTL_PREFIXES)) % 2 == 1
+        if (pfx // (2 * len(TTL_PREFIXES))) % 2 == 1 and len(triples) >= 2:
+            # two documents concatenated: the second half re-binds the prefix labels of the first half to other namespaces
+            h = len(triples) // 2
+            return to_simple_turtle(triples[:h], REBIND[0], bare_integers=bare) + to_simple_turtle(triples[h:], REBIND[1], bare_integers=bare)
+        return to_simple_turtle(triples, TTL_PREFIXES[pfx % len(TTL_PREFIXES)], bare_integers=bare)
     g = to_rdflib(triples)
     for k, v in TTL_PREFIXES[pfx % len(TTL_PREFIXES)].items():
         g.bind(k, v)        # the serialised document declares these prefixes too
